@@ -144,9 +144,7 @@ def Buf.step {α ι : Type} (K : Kind α ι) (b : Buf α) : Op α ι → Obs α 
 def Buf.run {α ι : Type} (K : Kind α ι) : Buf α → List (Op α ι) → List (Obs α) × Buf α
   | b, [] => ([], b)
   | b, op :: ops =>
-    let (o, b') := b.step K op
-    let (os, b'') := Buf.run K b' ops
-    (o :: os, b'')
+    ((b.step K op).1 :: (Buf.run K (b.step K op).2 ops).1, (Buf.run K (b.step K op).2 ops).2)
 
 /-! ## `PmapWrapper` / `PjitWrapper` -/
 
@@ -204,13 +202,36 @@ def ShBuf.run {α ι : Type} (K : Kind α ι) :
     ShBuf α → List (Op α (Nat → ι)) → List (Obs α) × ShBuf α
   | b, [] => ([], b)
   | b, op :: ops =>
-    let (o, b') := b.step K op
-    let (os, b'') := ShBuf.run K b' ops
-    (o :: os, b'')
+    ((b.step K op).1 :: (ShBuf.run K (b.step K op).2 ops).1, (ShBuf.run K (b.step K op).2 ops).2)
 
 /-- the operation shard `d` sees of a wrapper-level operation -/
 def projOp {α ι : Type} (D d : Nat) : Op α (Nat → ι) → Op α ι
   | .ins xs => .ins (dealAt D d xs)
   | .smp aux => .smp (aux d)
+
+/-! ## reference machine for the wrappers: `D` independent guarded buffers
+
+Every buffer has its own storage **and its own host counter**; shard `d` is handed `projOp D d op`.
+The wrapper-level observation is assembled from the per-shard observations: the (common) outcome,
+the interleaved batches, the sum of the sizes.  `Props/C17.sharded_eq_product` states that
+`PmapWrapper`/`PjitWrapper` (one shared counter, `k // D`, reshape/swapaxes) behave exactly so. -/
+
+def prodStep {α ι : Type} (K : Kind α ι) (D : Nat) (bs : List (Buf α)) (op : Op α (Nat → ι)) :
+    List (Obs α × Buf α) :=
+  List.zipWith (fun b d => b.step K (projOp D d op)) bs (List.range D)
+
+def combineObs {α : Type} (rs : List (Obs α)) : Obs α :=
+  ⟨match rs with
+    | [] => .ok
+    | r :: _ => r.outcome,
+   interleave (rs.map (·.out)), (rs.map (·.size)).sum⟩
+
+def prodRun {α ι : Type} (K : Kind α ι) (D : Nat) :
+    List (Buf α) → List (Op α (Nat → ι)) → List (Obs α) × List (Buf α)
+  | bs, [] => ([], bs)
+  | bs, op :: ops =>
+    (combineObs ((prodStep K D bs op).map (·.1)) ::
+       (prodRun K D ((prodStep K D bs op).map (·.2)) ops).1,
+     (prodRun K D ((prodStep K D bs op).map (·.2)) ops).2)
 
 end Brax.C17
